@@ -302,6 +302,10 @@ func genExtract(r *rand.Rand) logqIn {
 				lb := []string{"l1", "l2", "a"}[len(st.Exprs)%3]
 				st.Exprs = append(st.Exprs, jexprIn{Label: B(lb), Path: genPath(r, docs[r.Intn(len(docs))])})
 			}
+			if len(st.Exprs) == 2 && r.Intn(3) == 0 {
+				// two labels drawn from ONE path (an object or an array as often as a scalar): both exist
+				st.Exprs[1].Path = st.Exprs[0].Path
+			}
 			if r.Intn(3) == 0 {
 				// every expression maps a top-level key to a label of the same name (`| json a="a", k="k"`): still path
 				// expressions (a null yields "", a number its text), sometimes beside a bare label
